@@ -340,7 +340,10 @@ Definition stop_or_pause (st : state) (t : nat) (s : status) (dt : Q) : res stat
   bind (process_now st2) (fun st3 =>
   let time_complete := qadd (clock st3) (d_stopc S_) in
   let st4 := advance_to (push st3 t (EvComplete s) time_complete) (qadd time_complete (nudge S_)) in
-  process_now st4)).
+  bind (process_now st4) (fun st5 =>
+  (* results of this trial processed above were reported after the decision to stop or pause it:
+     dropped_results = self._next_results_to_fetch.pop(trial_id, None) *)
+  Ok (set_nextres st5 (remove_key t (nextres st5)))))).
 
 Inductive op :=
 | OpStart (c : config) (dt : Q)
